@@ -228,7 +228,8 @@ def c05_tasks(pid, tier, repo, seed, R):
         if not info["isa"]["BufferedCollection"]:
             continue
         kind = info["kind"]
-        meths = [m for m, sp in api.api_of(kind).items() if not sp.get("attr")]
+        # (Sequence.index re-loads per element: its loop invariant is stated for the unbuffered store only)
+        meths = [m for m, sp in api.api_of(kind).items() if not sp.get("attr") and m != "index"]
         roles = (("root", None), ("nested", "dict"), ("nested", "list"))
         for role, rk in roles:
             tasks.append(dict(kind="api", repo=repo, seed=seed, cname=c, role=role, rootkind=rk, methods=meths,
